@@ -227,4 +227,4 @@ OBLIGATIONS = [
 ]
 
 from harness.codownload import OB_DL, protocol_fixed as co_download_protocol  # noqa: E402
-OBLIGATIONS += [dict(OB_DL, id='C02.5', impl='co_download_protocol', cases=[('stream', 3, 4), ('seekable', 3, -1)])]
+OBLIGATIONS += [dict(OB_DL, id='C02.5', impl='co_download_protocol', cases_thorough=OB_DL['cases'], splits_thorough=OB_DL['splits'], cases=[('stream', 3, 4), ('seekable', 3, -1)])]
